@@ -14,6 +14,9 @@ import (
 	"bytes"
 	"encoding/json"
 	"fmt"
+	cid "github.com/ipfs/go-cid"
+	mh "github.com/multiformats/go-multihash"
+	"io"
 	"os"
 	"sort"
 	"strings"
@@ -97,27 +100,30 @@ type Mood enum {
 
 // world is everything the tasks share.
 type world struct {
-	ts       *schema.TypeSystem
-	n1, n2   datamodel.Node
-	bn       schema.TypedNode
-	gd       datamodel.Node
-	protoP   schema.TypedPrototype
-	sel      selector.Selector
-	selNode  datamodel.Node
-	lsys     linking.LinkSystem
-	cfg      *traversal.Config
-	g        *gen.Graph
-	lp       cidlink.LinkPrototype
-	blockLnk []datamodel.Link
-	enc1     []byte // dag-cbor encoding of n1 (shared, read-only)
-	encP     []byte // dag-json encoding of the bound struct's representation
-	profile  int
-	byt      datamodel.Node
-	vocab    []schema.TypedNode
-	sels     []selector.Selector
-	sbyt     datamodel.Node
-	backend  string
-	cleanup  func()
+	ts         *schema.TypeSystem
+	n1, n2     datamodel.Node
+	bn         schema.TypedNode
+	gd         datamodel.Node
+	protoP     schema.TypedPrototype
+	sel        selector.Selector
+	selNode    datamodel.Node
+	lsys       linking.LinkSystem
+	cfg        *traversal.Config
+	g          *gen.Graph
+	lp         cidlink.LinkPrototype
+	blockLnk   []datamodel.Link
+	rawLnk     []datamodel.Link
+	enc1       []byte // dag-cbor encoding of n1 (shared, read-only)
+	encP       []byte // dag-json encoding of the bound struct's representation
+	profile    int
+	byt        datamodel.Node
+	subsetNode datamodel.Node
+	sbytBad    datamodel.Node
+	vocab      []schema.TypedNode
+	sels       []selector.Selector
+	sbyt       datamodel.Node
+	backend    string
+	cleanup    func()
 }
 
 // failingWriter fails its n-th Write (a consumer's writer is the consumer's own; encoding a shared node into it is a read of the node).
@@ -187,6 +193,14 @@ func buildWorld(t *sim.Tape) *world {
 			w.blockLnk = append(w.blockLnk, gen.LinkFromBin(l))
 		}
 	}
+	for i := 0; i < 2; i++ {
+		// two raw-codec blocks of one size
+		content := bytes.Repeat([]byte{byte('A' + i)}, 96)
+		lp := cidlink.LinkPrototype{Prefix: cid.Prefix{Version: 1, Codec: 0x55, MhType: mh.SHA2_256, MhLength: -1}}
+		if l, err := w.lsys.Store(linking.LinkContext{}, lp, basicnode.NewBytes(content)); err == nil {
+			w.rawLnk = append(w.rawLnk, l)
+		}
+	}
 	cids := gen.SomeCids(t, 2)
 	b := 25
 	v := gen.Value(t, gen.DagCbor, cids, &b, 0)
@@ -253,6 +267,16 @@ func buildWorld(t *sim.Tape) *world {
 			w.sels = append(w.sels, cs)
 		}
 	}
+	func() {
+		src := basicnode.NewBytesFromReader(bytes.NewReader([]byte("the source of the shared subset match: a stream-backed bytes node of some length")))
+		if sel, err := ssb.MatcherSubset(4, 60).Selector(); err == nil {
+			traversal.Progress{Cfg: w.cfg}.WalkMatching(src, sel, func(_ traversal.Progress, n datamodel.Node) error {
+				w.subsetNode = n
+				return nil
+			})
+		}
+	}()
+	w.sbytBad = basicnode.NewBytesFromReader(&noSeekEnd{r: bytes.NewReader([]byte("a stream that can be read and rewound but not measured"))})
 	w.byt = basicnode.NewBytes([]byte("shared plain bytes node, long enough for subsets"))
 	w.sbyt = basicnode.NewBytesFromReader(bytes.NewReader([]byte("shared stream-backed bytes node: every reader sees all of it, from the start")))
 	if w.profile == 0 {
@@ -275,11 +299,11 @@ func avHash(n datamodel.Node) string {
 	return fmt.Sprintf("%x", v.Hash())
 }
 
-const nOps = 36
+const nOps = 39
 
 var opNames = []string{"read-basicnode", "read-bindnode-type", "read-bindnode-repr", "deepequal", "copy", "encode-dagcbor", "encode-dagjson", "encode-bindnode-repr",
 	"computelink", "load", "loadraw", "walkadv", "walkmatching", "get-path", "build-from-shared-prototype", "wrap-with-shared-type", "wrap-inferred", "registry-lookup",
-	"print", "read-gendemo", "build-gendemo", "compile-selector", "typesystem-read", "prototype-inferred", "encode-to-failing-writer", "encode-after-failed-encode", "decode-dagcbor", "decode-dagjson-into-shared-prototype", "focused-transform-of-shared-node", "walk-transform-of-shared-node", "loadplusraw", "fill", "walk-stream-bytes-subset", "read-stream-backed-bytes", "read-vocabulary-node", "walk-with-seeded-selector"}
+	"print", "read-gendemo", "build-gendemo", "compile-selector", "typesystem-read", "prototype-inferred", "encode-to-failing-writer", "encode-after-failed-encode", "decode-dagcbor", "decode-dagjson-into-shared-prototype", "focused-transform-of-shared-node", "walk-transform-of-shared-node", "loadplusraw", "fill", "walk-stream-bytes-subset", "read-stream-backed-bytes", "read-vocabulary-node", "walk-with-seeded-selector", "subset-of-stream-that-cannot-seek-to-its-end", "load-raw-codec-block-and-read-it-later", "read-shared-subset-match-node"}
 
 // doOp performs one read-only operation on the shared world and returns a digest of its result.
 func (w *world) doOp(op, arg int) string {
@@ -529,6 +553,54 @@ func (w *world) doOp(op, arg int) string {
 			return nil
 		})
 		return fmt.Sprintf("%x %v", sim.HashString(sb.String()), err != nil)
+	case 36:
+		// A shared stream-backed bytes node whose stream refuses to seek to its end (a permanent I/O
+		// fault of the caller's stream): a subset match needs the length and fails -- for every user
+		// alike, alone or not -- and the node can still be read sequentially afterwards.
+		ssb := builder.NewSelectorSpecBuilder(basicnode.Prototype.Any)
+		sel, err := ssb.MatcherSubset(1, int64(3+arg)).Selector()
+		if err != nil {
+			return "ERR:" + err.Error()
+		}
+		err = traversal.Progress{Cfg: w.cfg}.WalkMatching(w.sbytBad, sel, func(_ traversal.Progress, n datamodel.Node) error { return nil })
+		b, err2 := w.sbytBad.AsBytes()
+		return fmt.Sprintf("%v %x %v", err != nil, sim.HashString(string(b)), err2 != nil)
+	case 37:
+		// a raw-codec block is loaded, the node is kept while another block is loaded, then read
+		if len(w.rawLnk) < 2 {
+			return "none"
+		}
+		n, err := w.lsys.Load(linking.LinkContext{}, w.rawLnk[arg%2], basicnode.Prototype.Any)
+		if err != nil {
+			return "ERR:" + err.Error()
+		}
+		first := avHash(n)
+		if _, err := w.lsys.Load(linking.LinkContext{}, w.rawLnk[(arg+1)%2], basicnode.Prototype.Any); err != nil {
+			return "ERR:" + err.Error()
+		}
+		return first + " " + avHash(n)
+	case 38:
+		// the shared node a subset match over a stream-backed bytes node produced: whole, and in pieces
+		if w.subsetNode == nil {
+			return "none"
+		}
+		b, err := w.subsetNode.AsBytes()
+		out := fmt.Sprintf("%x %v", sim.HashString(string(b)), err)
+		if lb, ok := w.subsetNode.(datamodel.LargeBytesNode); ok {
+			if rs, err := lb.AsLargeBytes(); err == nil {
+				buf := make([]byte, 3+arg)
+				var got []byte
+				for {
+					n, e := rs.Read(buf)
+					got = append(got, buf[:n]...)
+					if e != nil {
+						break
+					}
+				}
+				out += fmt.Sprintf(" %x", sim.HashString(string(got)))
+			}
+		}
+		return out
 	case 24, 25:
 		// encode a shared map-bearing node into a writer that fails at its arg-th write, then (25) encode again properly
 		fw := &failingWriter{at: arg}
@@ -721,4 +793,15 @@ func ChildMain(args []string) int {
 		return 2
 	}
 	return 0
+}
+
+// noSeekEnd is a caller's stream that fails every seek relative to its end.
+type noSeekEnd struct{ r *bytes.Reader }
+
+func (n *noSeekEnd) Read(p []byte) (int, error) { return n.r.Read(p) }
+func (n *noSeekEnd) Seek(off int64, whence int) (int64, error) {
+	if whence == io.SeekEnd {
+		return 0, fmt.Errorf("this stream cannot seek relative to its end")
+	}
+	return n.r.Seek(off, whence)
 }
